@@ -4,6 +4,7 @@ import DoitModel.Proofs.OptConfig
 import DoitModel.Proofs.OptReject
 import DoitModel.Proofs.OptAccept
 import DoitModel.Proofs.OptDemo
+import DoitModel.Proofs.OptCfg
 /-! # C16 — option parsing is exact, pure and respects source precedence
 
 Property theorems only (model: `Model/Opt.lean`, helpers: `Proofs/Opt*.lean`).
@@ -381,5 +382,242 @@ theorem pinned_config_overrides_cmdline :
     (match (parse false demoSpec (fun _ => none) [['-','l'], ['x']]).2 with
      | .ok (p, _) => (updateDefaults [(['l'], .l [['z']])] p).vals ['l']
      | .error _ => none) = some (.l [['d'], ['x']]) := by decide
+
+/-! ## wave 5: the configuration side — which layer wins, plugin tables, conversion of config texts -/
+
+/-- **precedence order, per key, for every combination of present / absent layers**: the value the specification
+    (and by `precedence` the resolution `pipeline`) gives an option whose command's `config_vals` were merged from
+    `[GLOBAL]` and the command's section of `extra_config`, `pyproject.toml` and `doit.cfg` is the value of exactly
+    one layer — `winner`: command line > environment > DOIT_CONFIG > section(doit.cfg > pyproject.toml > API) >
+    GLOBAL(doit.cfg > pyproject.toml > API) > declared default — converted the way that layer converts
+    (`layerValue`: DOIT_CONFIG unconverted; a list option on the command line extends the environment / config /
+    declared value and never the DOIT_CONFIG one). -/
+theorem precedence_order (o : Opt) (occ : List (Bool × Str)) (env : Option Str) (dodo : List (Str × Val))
+    (gApi gToml gCfg sApi sToml sCfg : List (Str × CfgVal)) :
+    specValue o occ env (alookup o.name dodo) (alookup o.name (sixLayers gApi gToml gCfg sApi sToml sCfg)) =
+      layerValue o (keyIn o.name occ env dodo gApi gToml gCfg sApi sToml sCfg)
+        (winner (keyIn o.name occ env dodo gApi gToml gCfg sApi sToml sCfg)) := by
+  rw [sixLayers_lookup]
+  simp only [keyIn]
+  generalize alookup o.name dodo = d
+  generalize alookup o.name sCfg = a1
+  generalize alookup o.name sToml = a2
+  generalize alookup o.name sApi = a3
+  generalize alookup o.name gCfg = a4
+  generalize alookup o.name gToml = a5
+  generalize alookup o.name gApi = a6
+  have hocc : occ = [] ∨ ∃ inv v, occ.getLast? = some (inv, v) ∧ occ ≠ [] := by
+    cases h : occ.getLast? with
+    | none => left; simpa using h
+    | some x => right; exact ⟨x.1, x.2, rfl, by intro hn; simp [hn] at h⟩
+  rcases hocc with hocc | ⟨inv, v, hl, hne⟩
+  · subst hocc
+    cases env <;> cases d <;> cases a1 <;> cases a2 <;> cases a3 <;> cases a4 <;> cases a5 <;> cases a6 <;>
+      simp [specValue, winner, cfgWinner, layerValue, cfgLayerValue, baseValue]
+  · cases hty : o.ty <;> cases env <;> cases a1 <;> cases a2 <;> cases a3 <;> cases a4 <;> cases a5 <;> cases a6 <;>
+      simp [specValue, winner, cfgWinner, layerValue, cfgLayerValue, baseValue, cmdLineValue, hl, hne, hty] <;>
+      (try (split <;> split <;> simp_all))
+
+/-- the order is strict: nine layers all present, each removed in turn -/
+example : winner ⟨[(false, ['x'])], some ['e'], some (.s ['d']), some (.raw ['a']), some (.raw ['b']), some (.raw ['c']),
+                  some (.raw ['f']), some (.raw ['g']), some (.raw ['h'])⟩ = .cmdline ∧
+          winner ⟨[], some ['e'], some (.s ['d']), some (.raw ['a']), none, none, none, none, none⟩ = .environ ∧
+          winner ⟨[], none, some (.s ['d']), some (.raw ['a']), none, none, none, none, none⟩ = .dodoCfg ∧
+          winner ⟨[], none, none, none, some (.raw ['b']), some (.raw ['c']), some (.raw ['f']), none, none⟩ = .secToml ∧
+          winner ⟨[], none, none, none, none, none, none, some (.raw ['g']), some (.raw ['h'])⟩ = .globToml ∧
+          winner ⟨[], none, none, none, none, none, none, none, none⟩ = .declared := by decide
+
+/-- **plugin sections, per name**: a name defined in `[CAT]` of doit.cfg, in `tool.doit.plugins.cat` of
+    pyproject.toml and in `extra_config[CAT]` stands for the location doit.cfg gives, else pyproject.toml's, else the
+    API dict's; setuptools entry points beat all three. -/
+theorem plugin_layers_per_name (api toml ini eps : List (Str × Str)) (n : Str) :
+    alookup n (addPlugins (pluginSection [api, toml, ini]) eps) =
+      match alookup n eps with
+      | some l => some l
+      | none => match alookup n ini with
+        | some l => some l
+        | none => match alookup n toml with
+          | some l => some l
+          | none => alookup n api := by
+  unfold addPlugins
+  rw [dictUpdate_lookup, pluginSection3_lookup]
+  cases alookup n eps <;> cases alookup n ini <;> cases alookup n toml <;> rfl
+
+example : alookup ['r'] (addPlugins (pluginSection [[(['r'], ['a'])], [(['r'], ['t'])], [(['q'], ['i'])]]) []) = some ['t'] := by
+  decide
+
+/-- **`-r NAME` / `--backend NAME` accept exactly the core names and the plugin names**, and a plugin named like a
+    core class replaces it -/
+theorem names_accepted_exactly (core : List Str) (plugins : List (Str × Str)) (n : Str) :
+    (acceptsName core plugins n = true ↔ (n ∈ core ∨ n ∈ plugins.map (·.1))) ∧
+    (∀ loc, alookup n plugins = some loc → alookup n (nameTable core plugins) = some (Cls.plugin loc)) := by
+  refine ⟨?_, ?_⟩
+  · unfold acceptsName
+    rw [nameTable_lookup]
+    cases h : alookup n plugins with
+    | some loc =>
+      have : n ∈ plugins.map (·.1) := (alookup_isSome_iff plugins n).1 (by simp [h])
+      simp [this]
+    | none =>
+      have : n ∉ plugins.map (·.1) := fun hm => by
+        have := (alookup_isSome_iff plugins n).2 hm
+        simp [h] at this
+      by_cases hc : n ∈ core <;> simp [hc, this]
+  · intro loc h
+    rw [nameTable_lookup, h]
+
+example : acceptsName [['d','b','m']] [(['v'], ['m',':','C'])] ['v'] = true ∧
+          acceptsName [['d','b','m']] [(['v'], ['m',':','C'])] ['x'] = false := by decide
+
+/-- **choosing by name**: a name of the table gives its class wherever it was written; an unknown name is reported as
+    `ERROR: …` (exit code 3) for `--backend` in every place and for `-r` on the command line, ends in a KeyError
+    traceback (exit code 3) for a reporter named in a config section or DOIT_CONFIG, and leaves `DoitMain.run` as an
+    uncaught KeyError for a loader (`[GLOBAL] loader = NAME`). -/
+theorem pick_by_name (cat : Category) (w : Where) (core : List Str) (plugins : List (Str × Str)) (n : Str) :
+    (∀ loc, alookup n plugins = some loc → pick cat w (nameTable core plugins) n = .cls (.plugin loc)) ∧
+    (alookup n plugins = none → n ∈ core → pick cat w (nameTable core plugins) n = .cls (.core n)) ∧
+    (n ∉ core → n ∉ plugins.map (·.1) → pick cat w (nameTable core plugins) n = unknownName cat w) := by
+  refine ⟨?_, ?_, ?_⟩
+  · intro loc h; simp [pick, nameTable_lookup, h]
+  · intro h hc; simp [pick, nameTable_lookup, h, hc]
+  · intro hc hp
+    have : alookup n plugins = none := alookup_not_mem n plugins hp
+    simp [pick, nameTable_lookup, this, hc]
+
+example : pick .reporter .config (nameTable [['z']] []) ['q'] = .traceback3 ∧
+          pick .reporter .cmdline (nameTable [['z']] []) ['q'] = .errorMsg ∧
+          pick .loader .config (nameTable [] []) ['q'] = .escapes ∧
+          pick .backend .dodo (nameTable [['z']] [(['z'], ['m',':','C'])]) ['z'] = .cls (.plugin ['m',':','C']) := by decide
+
+/-- **a text in a config file is converted like the same text on the command line** for int / str options
+    (including the `choices` check) and like the same text in the environment for every type; the precise
+    differences: a bool option reads the words of `_boolean_states` from a config file / the environment while the
+    command line has only the flag; a list option splits the config text at commas and strips the pieces, the command
+    line appends the text as it is to the declared list. -/
+theorem config_text_conversion (o : Opt) (s : Str) :
+    (o.ty = .int ∨ o.ty = .str → cfgText o s = cmdText o s) ∧
+    (cfgText o s = str2type o s) ∧
+    (o.ty = .bool → cmdText o s = .error .noArg ∧
+        cfgText o s = match str2bool s with | some b => checkChoice o (.b b) | none => .error .badBool) ∧
+    (o.ty = .list → o.choices = [] → cfgText o s = .ok (.l (splitList s)) ∧ cmdText o s = listAfter o.default [s]) := by
+  refine ⟨?_, rfl, ?_, ?_⟩
+  · rintro (h | h) <;> simp [cfgText, cmdText, str2typeCfg, h]
+  · intro h
+    refine ⟨by simp [cmdText, h], ?_⟩
+    simp only [cfgText, str2typeCfg, str2type, convert, h]
+    cases str2bool s <;> rfl
+  · intro h hc
+    refine ⟨?_, by simp [cmdText, h]⟩
+    simp [cfgText, str2typeCfg, str2type, convert, h, checkChoice, hc]
+
+example : cfgText ⟨['l'], .list, .l [['d']], none, ['l'], [], [], none⟩ ['a', ',', ' ', 'b'] = .ok (.l [['a'], ['b']]) ∧
+          cmdText ⟨['l'], .list, .l [['d']], none, ['l'], [], [], none⟩ ['a', ',', ' ', 'b'] = .ok (.l [['d'], ['a', ',', ' ', 'b']]) :=
+  ⟨by rfl, by rfl⟩
+
+/-- `cmdText` IS what the resolution does with `--long=s` (scalar options): the command-line step of `parse` -/
+theorem cmdText_is_parse_step (st : PState) (p : Params) (o : Opt) (s : Str) (h : o.ty = .int ∨ o.ty = .str) :
+    (applyOpt false st p o false s).2 = (cmdText o s).map (p.set o.name) := by
+  rcases h with h | h <;> simp only [applyOpt, scalarStep, cmdText, h] <;> cases str2type o s <;> rfl
+
+example : (applyOpt false [] Params.empty ⟨['n'], .int, .i 0, none, ['n'], [], [], none⟩ false ['x']).2.toBool = false := by
+  decide
+
+/-- **plugin entries that do not load** (`name = module:attr` with no or two colons, a module that does not import, an
+    attribute the module does not have): for reporters and backends ONE such entry anywhere in the section ends the
+    command in a traceback (exit code 3) whatever name is chosen, wherever, also a core name (every entry is imported
+    when the command object is created); for loaders only the entry of the chosen name is imported (an exception
+    leaves `DoitMain.run`), the other entries do not matter; when every entry loads, loading changes nothing. -/
+theorem plugin_loading (cat : Category) (w : Where) (core : List Str) (sect : List (Str × Str))
+    (mods : List (Str × List Str)) (n : Str) :
+    (cat ≠ .loader → allLoad mods sect = false → pickLoaded cat w core sect mods n = .traceback3) ∧
+    (∀ sect', alookup n sect' = alookup n sect → (alookup n sect).isSome →
+        pickLoaded .loader w core sect' mods n = pickLoaded .loader w core sect mods n) ∧
+    (allLoad mods sect = true → pickLoaded cat w core sect mods n = pick cat w (nameTable core sect) n) := by
+  refine ⟨?_, ?_, ?_⟩
+  · intro hc h
+    cases cat <;> simp_all [pickLoaded]
+  · intro sect' he hs
+    cases h : alookup n sect with
+    | none => simp [h] at hs
+    | some loc => simp [pickLoaded, he, h]
+  · intro h
+    cases cat
+    · simp [pickLoaded, h]
+    · simp [pickLoaded, h]
+    · cases hl : alookup n sect with
+      | none => simp [pickLoaded, hl]
+      | some loc =>
+        have hm : (n, loc) ∈ sect := by
+          clear h
+          induction sect with
+          | nil => simp [alookup] at hl
+          | cons x r ih =>
+            obtain ⟨a, b⟩ := x
+            by_cases ha : a = n
+            · subst ha; simp [alookup_cons] at hl; subst hl; simp
+            · simp [alookup_cons, ha] at hl; exact List.mem_cons_of_mem _ (ih hl)
+        have hload : (loadPlugin mods loc).toBool = true := by
+          have := List.all_eq_true.1 h (n, loc) hm
+          simpa using this
+        simp [pickLoaded, hl, hload, pick, nameTable_lookup]
+
+example : pickLoaded .reporter .cmdline [['z']] [(['q'], ['n','o',':','X'])] [(['m'], [['C']])] ['z'] = .traceback3 ∧
+          pickLoaded .loader .config [] [(['q'], ['n','o',':','X']), (['p'], ['m',':','C'])] [(['m'], [['C']])] ['p']
+            = .cls (.plugin ['m',':','C']) ∧
+          pickLoaded .loader .config [] [(['q'], ['m'])] [(['m'], [['C']])] ['q'] = .escapes := by decide
+
+/-- **the sub-command by name**: a `COMMAND` plugin named like a core command REPLACES it (also `run`, also when `run`
+    is only implied); a first word that is no command name leaves the command `run` with every word as argument; only
+    the entry of the command that is used has to load. -/
+theorem command_by_name (core : List Str) (sect : List (Str × Str)) (mods : List (Str × List Str))
+    (a : Str) (rest : List Str) :
+    (∀ loc, alookup a sect = some loc → (loadPlugin mods loc).toBool = true →
+        commandPick core sect mods (a :: rest) = .cls (.plugin loc)) ∧
+    (alookup a sect = none → a ∈ core → commandPick core sect mods (a :: rest) = .cls (.core a)) ∧
+    (a ∉ core → a ∉ sect.map (·.1) →
+        subCommand (nameTable core sect) (a :: rest) = (runName, a :: rest) ∧
+        commandPick core sect mods (a :: rest) = commandPick core sect mods []) := by
+  refine ⟨?_, ?_, ?_⟩
+  · intro loc h hl
+    simp [commandPick, subCommand, nameTable_lookup, h, hl]
+  · intro h hc
+    simp [commandPick, subCommand, nameTable_lookup, h, hc]
+  · intro hc hs
+    have : alookup a sect = none := alookup_not_mem a sect hs
+    simp [commandPick, subCommand, nameTable_lookup, this, hc]
+
+example : commandPick [runName, ['l']] [(runName, ['m',':','C']), (['q'], ['b','a','d'])] [(['m'], [['C']])] [['t']]
+            = .cls (.plugin ['m',':','C']) ∧
+          commandPick [runName, ['l']] [(['q'], ['b','a','d'])] [(['m'], [['C']])] [['l'], ['t']] = .cls (.core ['l']) ∧
+          commandPick [runName, ['l']] [(['q'], ['b','a','d'])] [(['m'], [['C']])] [['q']] = .traceback3 := by decide
+
+/-- **precedence order for a task's option** (`Task.init_options`: `cfg_values` = the `[task:NAME]` /
+    `tool.doit.tasks.NAME` / `extra_config['task:NAME']` section merged per key; neither `[GLOBAL]` nor DOIT_CONFIG is
+    read): command line after the task name > environment > doit.cfg > pyproject.toml > API dict > declared default. -/
+theorem precedence_order_task (o : Opt) (occ : List (Bool × Str)) (env : Option Str)
+    (sApi sToml sCfg : List (Str × CfgVal)) :
+    specValue o occ env none (alookup o.name (mergeLayers [sApi, sToml, sCfg])) =
+      layerValue o (keyIn o.name occ env [] [] [] [] sApi sToml sCfg)
+        (winner (keyIn o.name occ env [] [] [] [] sApi sToml sCfg)) ∧
+    winner (keyIn o.name occ env [] [] [] [] sApi sToml sCfg) ∈
+      [Layer.cmdline, .environ, .secCfg, .secToml, .secApi, .declared] := by
+  have hm : ∀ c : List (Str × CfgVal), mergeCfg [] c = c := by
+    intro c; simp [mergeCfg, alookup]
+  have h6 : sixLayers [] [] [] sApi sToml sCfg = mergeLayers [sApi, sToml, sCfg] := by
+    simp [sixLayers, mergeLayers, List.foldl, hm]
+  refine ⟨?_, ?_⟩
+  · have h := precedence_order o occ env [] [] [] [] sApi sToml sCfg
+    rw [h6] at h
+    simpa [alookup] using h
+  · have key : ∀ k : KeyIn, k.dodo = none → k.globCfg = none → k.globToml = none → k.globApi = none →
+        winner k ∈ [Layer.cmdline, .environ, .secCfg, .secToml, .secApi, .declared] := by
+      intro k h1 h2 h3 h4
+      obtain ⟨occ, env, dodo, a1, a2, a3, g1, g2, g3⟩ := k
+      simp only at h1 h2 h3 h4
+      subst h1 h2 h3 h4
+      by_cases h0 : occ = [] <;> cases env <;> cases a1 <;> cases a2 <;> cases a3 <;> simp [winner, cfgWinner, h0]
+    exact key _ rfl rfl rfl rfl
+
+example : winner (keyIn ['p'] [] none [] [] [] [] [(['p'], .raw ['a'])] [(['p'], .raw ['t'])] []) = .secToml := by decide
 
 end DoitModel.C16
